@@ -29,8 +29,8 @@ theorem spanHex_append (hs rest : List Char) (hh : ∀ h ∈ hs, isHex h = true)
     simp [spanHex, hh h List.mem_cons_self, this]
 
 /-- what the loop has seen so far is unchanged by an item, except for the bytes it adds -/
-def Advances (q q' : QSt) (bytes : List Nat) : Prop :=
-  q'.firstErr = q.firstErr ∧ q'.closed = q.closed ∧ q'.bytes = bytes.reverse ++ q.bytes
+def Advances (q q' : QSt) (bytes : List Nat) (n : Nat) : Prop :=
+  q'.firstErr = q.firstErr ∧ q'.closed = q.closed ∧ q'.bytes = bytes.reverse ++ q.bytes ∧ q'.stop = q.stop + n
 
 theorem nonascii_facts (c : Char) (h : isAscii c = false) :
     (c == '\\') = false ∧ (c == ' ') = false ∧ isAsciiGraphic c = false := by
@@ -55,7 +55,7 @@ theorem nonascii_facts (c : Char) (h : isAscii c = false) :
       omega
 
 theorem lexQuote_item (quote : Char) (hq : (quote == '\\') = false) (sp : List Char) (bytes : List Nat) (h : QItem quote sp bytes) :
-    ∀ (rest : List Char) (f : Nat) (q : QSt), ∃ q', lexQuote quote (f + 1) (sp ++ rest) q = lexQuote quote f rest q' ∧ Advances q q' bytes := by
+    ∀ (rest : List Char) (f : Nat) (q : QSt), ∃ q', lexQuote quote (f + 1) (sp ++ rest) q = lexQuote quote f rest q' ∧ Advances q q' bytes sp.length := by
   intro rest f q
   cases h with
   | plain c hp =>
@@ -67,32 +67,32 @@ theorem lexQuote_item (quote : Char) (hq : (quote == '\\') = false) (sp : List C
     by_cases hsp : c = ' '
     · subst hsp
       simp only [List.cons_append, List.nil_append, lexQuote, e1, e2, Bool.false_eq_true, if_false, beq_self_eq_true, if_true]
-      exact ⟨_, rfl, rfl, rfl, by simp⟩
+      exact ⟨_, rfl, rfl, rfl, by simp, by simp [Nat.add_assoc] <;> omega⟩
     · have e3 : (c == ' ') = false := by simpa using hsp
       have h3' : isAsciiGraphic c = true := by rcases h3 with h3 | h3; exact absurd h3 hsp; exact h3
       simp only [List.cons_append, List.nil_append, lexQuote, e1, e2, e3, h3', Bool.false_eq_true, if_false, if_true]
-      exact ⟨_, rfl, rfl, rfl, by simp⟩
+      exact ⟨_, rfl, rfl, rfl, by simp, by simp [Nat.add_assoc] <;> omega⟩
   | esc y b hm =>
     simp only [List.mem_cons, Prod.mk.injEq, List.mem_nil_iff, or_false] at hm
     rcases hm with ⟨rfl, rfl⟩ | ⟨rfl, rfl⟩ | ⟨rfl, rfl⟩ | ⟨rfl, rfl⟩ | ⟨rfl, rfl⟩ | ⟨rfl, rfl⟩ | ⟨rfl, rfl⟩ <;>
     · simp only [List.cons_append, List.nil_append, lexQuote]
       simp only [beq_self_eq_true, if_true, show ('\\' == '\\') = true from rfl]
       first
-        | exact ⟨_, rfl, rfl, rfl, by simp⟩
-        | (simp (config := {decide := true}) only [if_false, if_true]; exact ⟨_, rfl, rfl, rfl, by simp⟩)
+        | exact ⟨_, rfl, rfl, rfl, by simp, by simp [Nat.add_assoc] <;> omega⟩
+        | (simp (config := {decide := true}) only [if_false, if_true]; exact ⟨_, rfl, rfl, rfl, by simp, by simp [Nat.add_assoc] <;> omega⟩)
   | hex2 a b ha hb =>
     have ht : takeHex2 (a :: b :: rest) = ([a, b], rest) := by simp [takeHex2, ha, hb]
     simp [lexQuote, ht]
-    exact ⟨_, rfl, rfl, rfl, by simp⟩
+    exact ⟨_, rfl, rfl, rfl, by simp, by simp [Nat.add_assoc] <;> omega⟩
   | uni hs hne hlen hh hv hsc =>
     have hs' := spanHex_append hs ('}' :: rest) hh (by intro c hc; simp at hc; subst hc; decide)
     have hne' : hs.isEmpty = false := by cases hs with | nil => exact absurd rfl hne | cons _ _ => rfl
     simp [lexQuote, hs', hne', hlen, hv, hsc]
-    exact ⟨_, rfl, rfl, rfl, by simp⟩
+    exact ⟨_, rfl, rfl, rfl, by simp, by simp [Nat.add_assoc] <;> omega⟩
   | raw c hc hcq =>
     obtain ⟨e1, e3, e4⟩ := nonascii_facts c hc
     simp only [List.cons_append, List.nil_append, lexQuote, e1, hcq, e3, e4, hc, Bool.false_eq_true, if_false]
-    exact ⟨_, rfl, rfl, rfl, by simp⟩
+    exact ⟨_, rfl, rfl, rfl, by simp, by simp [Nat.add_assoc] <;> omega⟩
 
 /-- a run of items: spelling, bytes, number of items -/
 inductive QItems (quote : Char) : List Char → List Nat → Nat → Prop
@@ -113,22 +113,23 @@ theorem QItems.count_le {quote : Char} {sps : List Char} {bs : List Nat} {n : Na
 theorem lexQuote_items (quote : Char) (hq : (quote == '\\') = false) {sps : List Char} {bs : List Nat} {n : Nat}
     (h : QItems quote sps bs n) : ∀ (rest : List Char) (f : Nat) (q : QSt), n < f →
     ∃ q', lexQuote quote f (sps ++ quote :: rest) q = (q', rest) ∧ q'.firstErr = q.firstErr ∧ q'.closed = true ∧
-      q'.bytes = bs.reverse ++ q.bytes := by
+      q'.bytes = bs.reverse ++ q.bytes ∧ q'.stop = q.stop + (sps.length + 1) := by
   induction h with
   | nil =>
     intro rest f q hf
     obtain ⟨f', rfl⟩ : ∃ f', f = f' + 1 := ⟨f - 1, by omega⟩
     simp only [List.nil_append, lexQuote, hq, Bool.false_eq_true, if_false, beq_self_eq_true, if_true]
-    exact ⟨_, rfl, rfl, rfl, by simp⟩
+    exact ⟨_, rfl, rfl, rfl, by simp, by simp⟩
   | cons hi _ ih =>
     intro rest f q hf
     obtain ⟨f', rfl⟩ : ∃ f', f = f' + 1 := ⟨f - 1, by omega⟩
-    obtain ⟨q1, h1, ha1, ha2, ha3⟩ := lexQuote_item quote hq _ _ hi (_ ++ quote :: rest) f' q
-    obtain ⟨q2, h2, hb1, hb2, hb3⟩ := ih rest f' q1 (by omega)
-    refine ⟨q2, ?_, ?_, hb2, ?_⟩
+    obtain ⟨q1, h1, ha1, ha2, ha3, ha4⟩ := lexQuote_item quote hq _ _ hi (_ ++ quote :: rest) f' q
+    obtain ⟨q2, h2, hb1, hb2, hb3, hb4⟩ := ih rest f' q1 (by omega)
+    refine ⟨q2, ?_, ?_, hb2, ?_, ?_⟩
     · rw [List.append_assoc, h1, h2]
     · rw [hb1, ha1]
     · rw [hb3, ha3]; simp
+    · rw [hb4, ha4]; simp only [List.length_append]; omega
 
 theorem quote_char_facts (x : Char) (hx : x = '"' ∨ x = '\'') :
     (x == ' ' || x == '\t') = false ∧ (x == '/') = false ∧ isSym1 x = false ∧ isIdentStart x = false ∧ (x == '0') = false ∧
@@ -141,7 +142,7 @@ theorem closedLex_string {sps : List Char} {bs : List Nat} {n : Nat} (h : QItems
   intro tail ln col off
   obtain ⟨f1, f2, f3, f4, f5, f6, f7, f8, _⟩ := quote_char_facts '"' (Or.inl rfl)
   have hcnt := h.count_le
-  obtain ⟨q', hl, he, hc, hb⟩ := lexQuote_items '"' f8 h tail (sps ++ '"' :: tail).length
+  obtain ⟨q', hl, he, hc, hb, _⟩ := lexQuote_items '"' f8 h tail (sps ++ '"' :: tail).length
     { stop := off + 1, eol := col + 1, idx := col + 1 } (by simp only [List.length_append, List.length_cons]; omega)
   simp only [List.cons_append, List.append_assoc, List.nil_append]
   unfold lexStep
@@ -157,7 +158,7 @@ theorem closedLex_char {sp : List Char} {b : Nat} (h : QItem '\'' sp [b]) : Clos
   have hi : QItems '\'' (sp ++ []) ([b] ++ []) 1 := QItems.cons h QItems.nil
   simp only [List.append_nil] at hi
   have hcnt := hi.count_le
-  obtain ⟨q', hl, he, hc, hb⟩ := lexQuote_items '\'' f8 hi tail (sp ++ '\'' :: tail).length
+  obtain ⟨q', hl, he, hc, hb, _⟩ := lexQuote_items '\'' f8 hi tail (sp ++ '\'' :: tail).length
     { stop := off + 1, eol := col + 1, idx := col + 1 } (by simp only [List.length_append, List.length_cons]; omega)
   have f9 : ('\'' == '"') = false := by decide
   simp only [List.cons_append, List.append_assoc, List.nil_append]
@@ -169,5 +170,49 @@ theorem closedLex_char {sp : List Char} {b : Nat} (h : QItem '\'' sp [b]) : Clos
   simp only [List.reverse_cons, List.reverse_nil, List.nil_append, List.append_nil] at hb
   rw [hb]
   exact ⟨_, rfl, rfl⟩
+
+/-- **string literals with escapes and non-ASCII text, exactly**: a literal made of items is the string token with the bytes
+    the items stand for, spanning exactly its characters, whatever follows -/
+theorem lexemeP_string_items {sps : List Char} {bs : List Nat} {n : Nat} (h : QItems '"' sps bs n) :
+    LexemeP AfterAny ('"' :: (sps ++ ['"'])) (.str bs) := by
+  refine ⟨by simp, ?_⟩
+  intro ln col off tail _
+  obtain ⟨f1, f2, f3, f4, f5, f6, f7, f8, _⟩ := quote_char_facts '"' (Or.inl rfl)
+  have hcnt := h.count_le
+  obtain ⟨q', hl, he, hc, hb, hst⟩ := lexQuote_items '"' f8 h tail (sps ++ '"' :: tail).length
+    { stop := off + 1, eol := col + 1, idx := col + 1 } (by simp only [List.length_append, List.length_cons]; omega)
+  simp only [List.cons_append, List.append_assoc, List.nil_append]
+  unfold lexStep
+  simp only [f1, f2, f3, f4, f5, f6, Bool.false_eq_true, if_false, Bool.false_and, beq_self_eq_true, Bool.true_or, if_true, hl, hc]
+  simp only at he hb hst
+  rw [he]
+  simp only [hb, List.append_nil, List.reverse_reverse, List.length_cons, List.length_append, List.length_nil]
+  rw [hst]
+  have e : off + 1 + (sps.length + 1) = off + (sps.length + (0 + 1) + 1) := by omega
+  rw [e]
+
+/-- a character literal: one item standing for one byte -/
+theorem lexemeP_char_item {sp : List Char} {b : Nat} (h : QItem '\'' sp [b]) :
+    LexemeP AfterAny ('\'' :: (sp ++ ['\''])) (.chr b) := by
+  refine ⟨by simp, ?_⟩
+  intro ln col off tail _
+  obtain ⟨f1, f2, f3, f4, f5, f6, f7, f8, _⟩ := quote_char_facts '\'' (Or.inr rfl)
+  have hi : QItems '\'' (sp ++ []) ([b] ++ []) 1 := QItems.cons h QItems.nil
+  simp only [List.append_nil] at hi
+  have hcnt := hi.count_le
+  obtain ⟨q', hl, he, hc, hb, hst⟩ := lexQuote_items '\'' f8 hi tail (sp ++ '\'' :: tail).length
+    { stop := off + 1, eol := col + 1, idx := col + 1 } (by simp only [List.length_append, List.length_cons]; omega)
+  have f9 : ('\'' == '"') = false := by decide
+  simp only [List.cons_append, List.append_assoc, List.nil_append]
+  unfold lexStep
+  simp only [f1, f2, f3, f4, f5, f6, f9, Bool.false_eq_true, if_false, Bool.false_and, beq_self_eq_true, Bool.or_true, Bool.false_or,
+    if_true, hl, hc]
+  simp only at he hb hst
+  rw [he]
+  simp only [List.reverse_cons, List.reverse_nil, List.nil_append, List.append_nil] at hb
+  simp only [hb, List.length_cons, List.length_append, List.length_nil]
+  rw [hst]
+  have e : off + 1 + (sp.length + 1) = off + (sp.length + (0 + 1) + 1) := by omega
+  rw [e]
 
 end Lex
